@@ -131,6 +131,7 @@ fn run() {
         if now.duration_since(case_start) >= Duration::from_millis(HARD_MS.load(SeqCst)) && !HARD_TIMEOUT.load(SeqCst) {
             // generous wall-clock watchdog: inconclusive, never a verdict
             HARD_TIMEOUT.store(true, SeqCst);
+            crate::run::CASE_TAINTED.store(true, SeqCst);
             inspect::kill_descendants();
             case_start = now; // give it another period before giving up completely
         } else if HARD_TIMEOUT.load(SeqCst) && now.duration_since(case_start) >= Duration::from_millis(10_000) {
